@@ -91,8 +91,14 @@ def check_merge(pred, ref, metric, thr, order):
                 fails.append(f"prediction {ps[k]} was merged into ref {r} although the combined {metric} went from "
                              f"{float(cur):.6f} to {float(new):.6f} (not strictly better)")
             cur = new
-        for p in ps:
+        # the best single candidate of r: among the fragments assigned to it and the overlapping predictions left without a
+        # reference (a candidate that scores better than the first assigned one was processed earlier, so it can only be
+        # missing from r because it went to another reference; one that is assigned nowhere was never looked at)
+        elsewhere = {p_ for p_, r_ in order if r_ != r}
+        for p in list(ps) + [pp for (rr, pp) in cands if rr == r and pp not in ps and pp not in elsewhere]:
             sp = oracle.mask_score(metric, ref == r, pred == p)
+            if metric == "ASSD" and p not in ps and (oracle.near(sp, s) or oracle.near(sp, cur)):
+                fragile = True
             if oracle.better_eq(metric, sp, best_single):
                 best_single = sp
         if not oracle.better_eq(metric, cur, best_single) and not (metric == "ASSD" and oracle.near(cur, best_single)):
@@ -176,6 +182,37 @@ def one_case(ctx, pred, ref, metric, thr, src, shared=False, big=None):
     # the stable sort, which both sides share; compare exactly
     if mod["lmap"].get("ok") != order:
         ctx.disagree("merge label map", inp, order, mod["lmap"])
+
+
+def narrow_labels(rng, pred, ref):
+    """the same scene in uint8 / uint16 with label values whose product (or the usual pair code pred * (max_ref + 1) + ref)
+    does not fit the dtype although every label does"""
+    dt, lo, hi = rng.choice([(np.uint8, 14, 120), (np.uint8, 3, 255), (np.uint16, 250, 4000), (np.uint16, 3, 65535)])
+    pl = [int(x) for x in np.unique(pred) if x]
+    rl = [int(x) for x in np.unique(ref) if x]
+    if len(pl) > hi - lo or len(rl) > hi - lo:
+        return pred, ref
+    sig = dict(zip(pl, rng.sample(range(lo, hi + 1), len(pl))))
+    tau = dict(zip(rl, rng.sample(range(lo, hi + 1), len(rl))))
+    p2, r2 = np.zeros(pred.shape, dt), np.zeros(ref.shape, dt)
+    for k, v in sig.items():
+        p2[pred == k] = v
+    for k, v in tau.items():
+        r2[ref == k] = v
+    return p2, r2
+
+
+def narrow_corpus(ctx):
+    """reference 15 covered by prediction 16 (IoU 0.6) and prediction 3 (IoU 0.35) in uint8 / uint16: 16 * 16 + 15 = 271"""
+    for dt, (r1, pa, pb) in ((np.uint8, (15, 16, 3)), (np.uint8, (200, 100, 2)), (np.uint16, (255, 256, 3)), (np.uint16, (1000, 900, 65))):
+        ref = np.zeros((1, 24), dt)
+        pred = np.zeros((1, 24), dt)
+        ref[0, 2:22] = r1
+        pred[0, 2:14] = pa
+        pred[0, 14:21] = pb
+        for metric, thr in (("IOU", (1, 2)), ("DSC", (1, 2)), ("IOU", (3, 10))):
+            ctx.count("narrow_dtype_pair_code")
+            one_case(ctx, pred, ref, metric, thr, "corpus.narrow-dtype")
 
 
 def corpus(ctx):
@@ -348,6 +385,7 @@ def scale_recipes(rng):
 def run(ctx):
     corpus(ctx)
     singleton_corpus(ctx)
+    narrow_corpus(ctx)
     rng = ctx.rng
     for i in range(ctx.scale(6, 30)):
         p, r = big_id_chain(rng)
@@ -374,6 +412,9 @@ def run(ctx):
             pred, ref = np.expand_dims(pred, ax), np.expand_dims(ref, ax)
             metric = rng.choice(["ASSD", "ASSD", "IOU"])
             ctx.count("singleton_axis")
+        elif rng.random() < 0.25:
+            pred, ref = narrow_labels(rng, pred, ref)
+            ctx.count("narrow_dtype_labels")
         one_case(ctx, pred, ref, metric, rng.choice(GRID[metric]), f"rand{i}", shared=rng.random() < 0.5)
 
 
